@@ -20,6 +20,14 @@ Proof.
   destruct (assoc_get k (rr_fields r)) as [[]|]; simpl; try exact I; status_ne.
 Qed.
 
+Lemma rr_add_opt_safe r k o v : safe (fun _ => True) (rr_add_opt r k o v).
+Proof.
+  unfold rr_add_opt.
+  destruct (negb (key_datatype k =? ARES_DATATYPE_OPT)); [simpl; status_ne|].
+  destruct (negb (rr_type r =? key_to_rec_type k)); [simpl; status_ne|].
+  destruct (assoc_get k (rr_fields r)) as [[]|]; simpl; try exact I; status_ne.
+Qed.
+
 Lemma rr_remaining_len_ok c orig_len rdlength :
   cur_ok c -> exists m, rr_remaining_len c orig_len rdlength = Ok m /\ 0 <= m /\
                         m = (if (orig_len - (c_len c - c_off c)) mod 2 ^ 64 >=? rdlength then 0
@@ -33,6 +41,7 @@ Proof.
 Qed.
 
 Section Decoders.
+  Variable vr : variant.
   Variable fuel : nat.
   Variable c0 : cursor.
   Hypothesis Hfuel : (name_fuel c0 <= fuel)%nat.
@@ -201,7 +210,7 @@ Section Decoders.
     forall lfuel s,
       st_ok s -> 0 <= off0 <= c_off (fst s) ->
       rdlength - (c_off (fst s) - off0) <= Z.of_nat lfuel ->
-      safe (st_next s) (opt_loop lfuel s (c_len (fst s) - off0) rdlength key).
+      safe (st_next s) (opt_loop vr lfuel s (c_len (fst s) - off0) rdlength key).
   Proof.
     induction lfuel as [|lf IH]; intros s Hs Hoff Hfu.
     - cbn [opt_loop].
@@ -230,7 +239,7 @@ Section Decoders.
           intros [bs c3] (_ & Hpos & Hc3 & Hsb3 & Ho3). cbn [fst snd] in *. repeat split; try apply Hc3; try apply Hsb3. lia.
         - simpl. repeat split; try apply Hc2. lia. }
       intros [v c3] (Hc3 & Hsb3 & Ho3). cbn [fst snd] in *.
-      eapply safe_bind; [apply rr_set_opt_safe|]. intros r' _.
+      eapply safe_bind; [destruct (v_opt_append vr); [apply rr_add_opt_safe | apply rr_set_opt_safe]|]. intros r' _.
       assert (Hsb03 : same_block (fst s) c3).
       { eapply same_block_trans; [eassumption|]. eapply same_block_trans; eassumption. }
       assert (Hl3 : c_len c3 = c_len (fst s)) by apply Hsb03.
@@ -326,20 +335,26 @@ Section Decoders.
   Qed.
 
   Lemma parse_rr_raw_rr_safe s rdlength raw_type :
-    st_ok s -> 0 <= rdlength -> safe (st_next s) (parse_rr_raw_rr s rdlength raw_type).
+    st_ok s -> 0 <= rdlength -> safe (st_next s) (parse_rr_raw_rr vr s rdlength raw_type).
   Proof.
-    intros Hs Hr. unfold parse_rr_raw_rr.
-    destruct (rdlength =? 0); [simpl; apply st_next_refl; assumption|].
-    eapply safe_bind; [apply (fetch_bytes_safe (fst s) rdlength (proj1 Hs) Hr)|].
-    intros [bs c'] (_ & _ & Hadv). cbn [fst snd] in *.
-    eapply safe_bind; [apply rr_set_safe|]. intros r1 _.
-    eapply safe_bind; [apply rr_set_safe|]. intros r2 _.
-    simpl. eapply st_next_adv; eassumption.
+    intros Hs Hr. unfold parse_rr_raw_rr. destruct (v_raw_type_first vr).
+    - eapply safe_bind; [apply rr_set_safe|]. intros r0 _.
+      destruct (rdlength =? 0); [simpl; apply (st_next_refl (fst s, r0)); exact Hs|].
+      eapply safe_bind; [apply (fetch_bytes_safe (fst s) rdlength (proj1 Hs) Hr)|].
+      intros [bs c'] (_ & _ & Hadv). cbn [fst snd] in *.
+      eapply safe_bind; [apply rr_set_safe|]. intros r2 _.
+      simpl. eapply st_next_adv; eassumption.
+    - destruct (rdlength =? 0); [simpl; apply st_next_refl; assumption|].
+      eapply safe_bind; [apply (fetch_bytes_safe (fst s) rdlength (proj1 Hs) Hr)|].
+      intros [bs c'] (_ & _ & Hadv). cbn [fst snd] in *.
+      eapply safe_bind; [apply rr_set_safe|]. intros r1 _.
+      eapply safe_bind; [apply rr_set_safe|]. intros r2 _.
+      simpl. eapply st_next_adv; eassumption.
   Qed.
 
   Lemma opt_loop_start_safe s s1 rdlength key :
     st_ok s -> st_next s s1 ->
-    safe (st_next s1) (opt_loop (Z.to_nat rdlength) s1 (c_len (fst s) - c_off (fst s)) rdlength key).
+    safe (st_next s1) (opt_loop vr (Z.to_nat rdlength) s1 (c_len (fst s) - c_off (fst s)) rdlength key).
   Proof.
     intros Hs [Hs1 Ho].
     assert (Hl : c_len (fst s1) = c_len (fst s)).
@@ -349,7 +364,7 @@ Section Decoders.
     - lia.
   Qed.
 
-  Lemma parse_rr_svcb_safe s rdlength : st_ok s -> safe (st_next s) (parse_rr_svcb fuel s rdlength).
+  Lemma parse_rr_svcb_safe s rdlength : st_ok s -> safe (st_next s) (parse_rr_svcb vr fuel s rdlength).
   Proof.
     intros Hs. unfold parse_rr_svcb. with_len s Hs.
     eapply safe_bind; [apply parse_and_set_be16_safe; assumption|]. intros s1 Hs1.
@@ -359,7 +374,7 @@ Section Decoders.
     intros s3 Hs3. eapply st_next_trans; eassumption.
   Qed.
 
-  Lemma parse_rr_https_safe s rdlength : st_ok s -> safe (st_next s) (parse_rr_https fuel s rdlength).
+  Lemma parse_rr_https_safe s rdlength : st_ok s -> safe (st_next s) (parse_rr_https vr fuel s rdlength).
   Proof.
     intros Hs. unfold parse_rr_https. with_len s Hs.
     eapply safe_bind; [apply parse_and_set_be16_safe; assumption|]. intros s1 Hs1.
@@ -370,7 +385,7 @@ Section Decoders.
   Qed.
 
   Lemma parse_rr_opt_safe s rdlength raw_class raw_ttl raw_rcode :
-    st_ok s -> safe (fun r => st_next s (fst r)) (parse_rr_opt s rdlength raw_class raw_ttl raw_rcode).
+    st_ok s -> safe (fun r => st_next s (fst r)) (parse_rr_opt vr s rdlength raw_class raw_ttl raw_rcode).
   Proof.
     intros Hs. unfold parse_rr_opt. with_len s Hs.
     eapply safe_bind; [apply rr_set_safe|]. intros r1 _.
@@ -384,7 +399,7 @@ Section Decoders.
 
   Lemma parse_rr_data_safe s rdlength type raw_type raw_class raw_ttl raw_rcode :
     st_ok s -> 0 <= rdlength ->
-    safe (fun r => st_next s (fst r)) (parse_rr_data fuel s rdlength type raw_type raw_class raw_ttl raw_rcode).
+    safe (fun r => st_next s (fst r)) (parse_rr_data vr fuel s rdlength type raw_type raw_class raw_ttl raw_rcode).
   Proof.
     intros Hs Hr. unfold parse_rr_data.
     assert (Hplain : forall m, safe (st_next s) m ->
@@ -431,6 +446,7 @@ Lemma rr_add_safe nm sect t c ttl : safe (fun _ => True) (rr_add nm sect t c ttl
 Proof. unfold rr_add. match goal with |- safe _ (if ?b then _ else _) => destruct b end; simpl; [status_ne | exact I]. Qed.
 
 Section Message.
+  Variable vr : variant.
   Variable fuel : nat.
   Variable c0 : cursor.
   Hypothesis Hfuel : (name_fuel c0 <= fuel)%nat.
@@ -475,7 +491,7 @@ Section Message.
     eapply safe_bind; [apply query_add_safe|]. intros d' _. simpl. assumption.
   Qed.
 
-  Lemma parse_rr_safe c flags sect d : cok c -> safe (fun r => cok (fst r)) (parse_rr fuel c flags sect d).
+  Lemma parse_rr_safe c flags sect d : cok c -> safe (fun r => cok (fst r)) (parse_rr vr fuel c flags sect d).
   Proof.
     intros [Hc Hsb]. unfold parse_rr.
     eapply safe_bind; [apply (dns_name_parse_safe fuel c true false Hc (name_fuel_same fuel c0 Hfuel _ Hsb))|].
@@ -493,7 +509,7 @@ Section Message.
     rewrite (buf_len_ok c5 (proj1 Hk5)). cbn [bind].
     destruct (rdl >? c_len c5 - c_off c5); [simpl; status_ne|].
     eapply safe_bind; [apply rr_add_safe|]. intros r0 _.
-    eapply safe_bind; [apply (parse_rr_data_safe fuel c0 Hfuel (c5, r0) rdl type rt qc ttl (d_raw_rcode d) Hk5); lia|].
+    eapply safe_bind; [apply (parse_rr_data_safe vr fuel c0 Hfuel (c5, r0) rdl type rt qc ttl (d_raw_rcode d) Hk5); lia|].
     intros [[c6 r1] rc] [Hk6 Ho6]. cbn [fst snd] in *.
     assert (Hk6' : cok c6) by exact Hk6. clear Hk6. rename Hk6' into Hk6.
     rewrite (buf_len_ok c6 (proj1 Hk6)). cbn [bind].
@@ -509,7 +525,7 @@ Section Message.
     - intros c7 Hk7. simpl. exact Hk7.
   Qed.
 
-  Lemma parse_rrs_safe flags sect : forall n c d, cok c -> safe (fun r => cok (fst r)) (parse_rrs fuel n c flags sect d).
+  Lemma parse_rrs_safe flags sect : forall n c d, cok c -> safe (fun r => cok (fst r)) (parse_rrs vr fuel n c flags sect d).
   Proof.
     induction n as [|n IH]; intros c d Hc; cbn [parse_rrs]; [simpl; exact Hc|].
     eapply safe_bind; [apply parse_rr_safe; assumption|]. intros [c' d'] Hc'. apply IH. exact Hc'.
@@ -521,7 +537,7 @@ Section Message.
     eapply safe_bind; [apply parse_qd_safe; assumption|]. intros [c' d'] Hc'. apply IH. exact Hc'.
   Qed.
 
-  Lemma parse_buf_safe c flags : cok c -> safe (fun _ => True) (parse_buf fuel c flags).
+  Lemma parse_buf_safe c flags : cok c -> safe (fun _ => True) (parse_buf vr fuel c flags).
   Proof.
     intros Hc. unfold parse_buf. rewrite (buf_len_ok c (proj1 Hc)). cbn [bind].
     destruct (c_len c - c_off c >? 65535); [simpl; status_ne|].
@@ -538,12 +554,16 @@ Section Message.
 End Message.
 
 (* ---- the C02 statement for the whole parser ---- *)
-Theorem dns_parse_safe bs flags :
-  Z.of_nat (length bs) < 2 ^ 64 -> safe (fun _ => True) (dns_parse bs flags).
+Theorem dns_parse_v_safe vr bs flags :
+  Z.of_nat (length bs) < 2 ^ 64 -> safe (fun _ => True) (dns_parse_v vr bs flags).
 Proof.
-  intros Hlt. unfold dns_parse.
+  intros Hlt. unfold dns_parse_v.
   destruct (Z.of_nat (length bs) =? 0); [simpl; status_ne|].
-  apply (parse_buf_safe _ (cur_of_bytes bs)).
+  apply (parse_buf_safe vr _ (cur_of_bytes bs)).
   - apply le_n.
   - split; [apply cur_of_bytes_ok; assumption | apply same_block_refl].
 Qed.
+
+Theorem dns_parse_safe bs flags :
+  Z.of_nat (length bs) < 2 ^ 64 -> safe (fun _ => True) (dns_parse bs flags).
+Proof. apply dns_parse_v_safe. Qed.
